@@ -36,6 +36,10 @@ fn calls(events: &[Event]) -> Vec<(&Path, &Json)> {
         .collect()
 }
 
+fn calls_and_items(events: &[Event]) -> Vec<&Event> {
+    events.iter().filter(|e| matches!(e, Event::Call(..) | Event::Item(..))).collect()
+}
+
 /// root response keys of the event log with consecutive repetitions collapsed
 fn root_groups(events: &[Event]) -> Vec<String> {
     let mut out: Vec<String> = Vec::new();
@@ -157,6 +161,11 @@ fn run_schedule(cx: &Ctx<'_>, vars: &Map<String, Json>, devs: &[(Path, Dev)], sr
             } else if calls(&sched.events) != calls(&sref.events) {
                 let show = |ev: &[Event]| Json::Array(calls(ev).iter().map(|(p, a)| json!([exec::path_json(p), a])).collect());
                 fail(st, "call-order-differs-from-sync", format!("async calls {} sync calls {}", show(&sched.events), show(&sref.events)));
+            } else if calls_and_items(&sched.events) != calls_and_items(&sref.events) {
+                // the list a resolver returns is resolver code too: its items must be pulled at
+                // the same points between the resolver calls as in the synchronous execution
+                let show = |ev: &[Event]| Json::Array(calls_and_items(ev).iter().map(|e| e.to_json()).collect());
+                fail(st, "item-production-order-differs-from-sync", format!("async {} sync {}", show(&sched.events), show(&sref.events)));
             } else if let Some(order) = &sref.root_order {
                 let groups = root_groups(&sched.events);
                 let expected: Vec<String> = order.iter().filter(|k| groups.contains(k)).cloned().collect();
@@ -206,7 +215,10 @@ fn explore_request(cx: &Ctx<'_>, vars: &Map<String, Json>, devs: &[(Path, Dev)],
         let w = world(cx.sc, devs);
         let probe = run_async(cx.sc, &cx.prep.apollo, vars, &w, &root_type_of(cx.sc, &g.operation), vec![], cx.max_pending);
         if probe.trace.len() > cx.max_points {
-            st.count("requests over the choice-point bound (not explored)", 1);
+            // too many choice points for the complete schedule tree: explore by deviation bound
+            // (every schedule with at most 1 | 2 non-default answers, each run to completion)
+            st.count("requests over the choice-point bound (explored by deviation bound)", 1);
+            explore_request_bounded(cx, vars, devs, if cx.max_pending > 1 { 2 } else { 1 }, st);
             return None;
         }
         st.outcome(&format!("request with {} futures / stream polls", probe.trace.len()));
@@ -241,22 +253,31 @@ fn explore_request(cx: &Ctx<'_>, vars: &Map<String, Json>, devs: &[(Path, Dev)],
 /// Long lists: the schedule space of a 300-item list cannot be enumerated completely, so it is
 /// explored by deviation bound: the all-ready schedule (0 deviations) and every schedule with
 /// exactly one non-default answer (1 deviation), each run to completion.
-fn explore_request_bounded(cx: &Ctx<'_>, vars: &Map<String, Json>, devs: &[(Path, Dev)], st: &mut Stats) {
+fn explore_request_bounded(cx: &Ctx<'_>, vars: &Map<String, Json>, devs: &[(Path, Dev)], max_dev: usize, st: &mut Stats) {
     let Ok(sref) = sync_reference(cx, vars, devs) else {
         st.count("requests without a sync response (skipped)", 1);
         return;
     };
-    let base = run_schedule(cx, vars, devs, &sref, vec![], st);
-    if base.diverged.is_some() {
-        return;
-    }
-    st.count("long-list requests explored (deviation bound 1)", 1);
-    st.outcome(&format!("long-list request with {} futures / stream polls", base.trace.len() / 50 * 50));
-    for i in 0..base.trace.len() {
-        for alt in 1..base.trace[i].menu {
-            let mut p = base.trace[..i].to_vec();
-            p.push(ChoicePoint { choice: alt, ..base.trace[i].clone() });
-            let _ = run_schedule(cx, vars, devs, &sref, p, st);
+    st.count("requests explored by deviation bound", 1);
+    // (prefix, deviations used so far)
+    let mut stack: Vec<(Vec<ChoicePoint>, usize)> = vec![(vec![], 0)];
+    let mut first = true;
+    while let Some((prefix, used)) = stack.pop() {
+        let plen = prefix.len();
+        let sched = run_schedule(cx, vars, devs, &sref, prefix, st);
+        if first {
+            st.outcome(&format!("deviation-bounded request with {}+ futures / stream polls", sched.trace.len() / 50 * 50));
+            first = false;
+        }
+        if sched.diverged.is_some() || used >= max_dev {
+            continue;
+        }
+        for i in plen..sched.trace.len() {
+            for alt in 1..sched.trace[i].menu {
+                let mut p = sched.trace[..i].to_vec();
+                p.push(ChoicePoint { choice: alt, ..sched.trace[i].clone() });
+                stack.push((p, used + 1));
+            }
         }
     }
 }
@@ -291,7 +312,7 @@ fn explore_op(cx: &Ctx<'_>, k: usize, st: &mut Stats) {
             // cooperative-yield budgets: 127 | 128 | 129 | 300 items)
             if matches!(ty, refmodel::ast::Ty::List(_)) || matches!(ty, refmodel::ast::Ty::NonNull(inner) if matches!(**inner, refmodel::ast::Ty::List(_))) {
                 for n in if cx.max_pending > 1 { LONG_LISTS } else { &LONG_LISTS[2..3] } {
-                    explore_request_bounded(cx, vars, &[(pos.clone(), Dev::List(*n))], st);
+                    explore_request_bounded(cx, vars, &[(pos.clone(), Dev::List(*n))], 1, st);
                 }
             }
         }
@@ -389,7 +410,7 @@ fn main() {
         "the equivalent synchronous resolvers are the same resolver world served through ObjectValue; the sync response is apollo's own execute_sync (its agreement with the specification is C26)".into(),
         "'completed' for a mutation root field = every resolver future and list stream under it has answered Ready / ended; the event log must not return to an earlier root field".into(),
         "executor model: one task, polled only after its waker was signalled; wake-ups are delivered during the poll or when the executor is idle; no spurious polls".into(),
-        "requests with more futures + stream polls than the bound are not explored (counted)".into(),
+        "requests with more futures + stream polls than the bound are explored by deviation bound (every schedule with at most 1 | 2 non-default answers) instead of completely".into(),
     ];
     chk.exhaustive = true;
     chk.finish(&|case| {
